@@ -583,6 +583,12 @@ fn next_fcnt_down(last: Option<u32>, wire: u16) -> Option<u32> {
     }
 }
 
+/// Read-only wrapper of [`next_fcnt_down`] for external verification harnesses.
+#[cfg(feature = "verif-hooks")]
+pub fn verif_next_fcnt_down(last: Option<u32>, wire: u16) -> Option<u32> {
+    next_fcnt_down(last, wire)
+}
+
 #[cfg(test)]
 mod tests {
     use super::next_fcnt_down;
